@@ -7,12 +7,14 @@ package c16
 
 import (
 	"context"
+	"crypto/sha256"
 	"encoding/json"
 	"fmt"
 	"io"
 	"os"
 	"path/filepath"
 	"runtime"
+	"sort"
 	"strconv"
 	"sync"
 	"time"
@@ -52,6 +54,25 @@ type CaseOut struct {
 	HasSuf    bool     `json:"has_suffrage_state"`
 	DBMembers []string `json:"db_members,omitempty"` // suffrage in the importing node's database afterwards
 	DBPolicy  string   `json:"db_policy,omitempty"`
+	SourceObs *Obs     `json:"source_obs,omitempty"` // ImportValidity.tla Facts() read back from the (tampered) source
+	StoredObs *Obs     `json:"stored_obs,omitempty"` // ... and from what the importer stored
+}
+
+// Obs is ImportValidity.tla's Facts(b) of the files of one block: what the relations R3..R7
+// (and the root clauses of R1, R2) are evaluated on, by check/props/c16.py and not by any
+// validator of the repository.
+type Obs struct {
+	IVP     [2]int64 `json:"ivp"` // INIT voteproof: height - manifest height, round
+	AVP     [2]int64 `json:"avp"` // ACCEPT voteproof: the same
+	Maj     bool     `json:"maj"` // the ACCEPT voteproof has a majority
+	NBM     bool     `json:"nbm"` // ... for the manifest's hash
+	PropM   bool     `json:"propm"`
+	PropH   int64    `json:"proph"`
+	OpsRoot bool     `json:"opsroot"`
+	StsRoot bool     `json:"stsroot"`
+	Stale   []string `json:"stale"` // listed items whose bytes do not have the map's checksum
+	Signed  bool     `json:"signed"`
+	Err     string   `json:"err,omitempty"` // an item could not be read back
 }
 
 func run(args []string) error {
@@ -289,11 +310,71 @@ type tamperCtx struct {
 	dropSts  bool
 	post     []func(root string, bm base.BlockMap) (base.BlockMap, error) // after the re-write
 	na       string                                                       // not applicable to this block
-	// the ACCEPT voteproof is re-built from these after all tamper actions, so that they compose
-	avpPoint   base.Point
-	avpNB      util.Hash
-	avpDraw    bool
-	avpRebuild bool
+	// the two voteproofs are chosen / built from these after all tamper actions, so that they
+	// compose: each voteproof has its own point
+	ivpPoint base.Point
+	avpPoint base.Point
+	avpNB    util.Hash
+	avpDraw  bool
+	prev     *blockItems // the block below (genuine voteproofs of another height)
+}
+
+func (t *tamperCtx) below() (*blockItems, error) {
+	if t.prev == nil {
+		prev, err := loadItems(t.src.w.Env.Readers, t.src.height-1)
+		if err != nil {
+			return nil, err
+		}
+		t.prev = prev
+	}
+	return t.prev, nil
+}
+
+func majorityNewBlock(vp base.Voteproof) util.Hash {
+	if avp, ok := vp.(base.ACCEPTVoteproof); ok && avp.BallotMajority() != nil {
+		return avp.BallotMajority().NewBlock()
+	}
+	return nil
+}
+
+func sameHash(a, b util.Hash) bool {
+	return a != nil && b != nil && a.Equal(b)
+}
+
+// voteproofs: the block's own voteproof where the tamper actions left its point (and, ACCEPT,
+// its majority) alone, the genuine voteproof of the block below where they ask for exactly
+// that one, otherwise one really signed by the block's voters at the asked point.
+func (t *tamperCtx) voteproofs() (vps [2]base.Voteproof, err error) {
+	src := t.src
+	own := src.items.vps
+	var prev *blockItems
+	if t.ivpPoint.Height() == src.height-1 || t.avpPoint.Height() == src.height-1 {
+		if prev, err = t.below(); err != nil {
+			return vps, err
+		}
+	}
+	switch {
+	case t.ivpPoint.Equal(own[0].Point().Point):
+		vps[0] = own[0]
+	case prev != nil && t.ivpPoint.Equal(prev.vps[0].Point().Point):
+		vps[0] = prev.vps[0]
+	default:
+		if vps[0], err = initAt(src, t.ivpPoint); err != nil {
+			return vps, err
+		}
+	}
+	switch {
+	case !t.avpDraw && t.avpPoint.Equal(own[1].Point().Point) && sameHash(t.avpNB, majorityNewBlock(own[1])):
+		vps[1] = own[1]
+	case !t.avpDraw && prev != nil && t.avpPoint.Equal(prev.vps[1].Point().Point) &&
+		sameHash(t.avpNB, majorityNewBlock(prev.vps[1])):
+		vps[1] = prev.vps[1]
+	default:
+		if vps[1], err = acceptAt(src, t.avpPoint, t.avpNB, t.avpDraw); err != nil {
+			return vps, err
+		}
+	}
+	return vps, nil
 }
 
 func otherOp(src *source, id string) (base.Operation, error) {
@@ -471,12 +552,11 @@ func apply(t *tamperCtx, name string) error {
 			return nil
 		}
 		st := it.sts[k]
+		// (the hash of a state does not cover its height: the states tree stays the same tree)
 		it.sts[k] = base.NewBaseState(st.Height()-1, st.Key(), st.Value(), st.Previous(), st.Operations())
-		tr, err := stsTreeOf(it.sts)
-		if err != nil {
-			return err
+		if !it.sts[k].Hash().Equal(st.Hash()) {
+			return errors.Errorf("the hash of a state covers its height")
 		}
-		it.ststree = tr
 	// ---- R3: proposal
 	case "proposal_other":
 		f := it.pr.ProposalFact()
@@ -495,39 +575,51 @@ func apply(t *tamperCtx, name string) error {
 			return err
 		}
 		it.pr = pr
-	// ---- R4: voteproofs at the manifest's point
-	case "vps_other_block":
-		prev, err := loadItems(src.w.Env.Readers, src.height-1)
-		if err != nil {
-			return err
+	// ---- R4: voteproofs at the manifest's point; each of the two on its own
+	case "vps_other_block", "ivp_prev", "avp_prev":
+		if src.height < 1 {
+			t.na = name
+			return nil
 		}
-		it.vps = prev.vps
-		t.avpPoint = prev.vps[1].Point().Point
-		if avp, ok := prev.vps[1].(base.ACCEPTVoteproof); ok && avp.BallotMajority() != nil {
-			t.avpNB = avp.BallotMajority().NewBlock()
+		if name != "avp_prev" {
+			t.ivpPoint = base.NewPoint(src.height-1, t.ivpPoint.Round())
 		}
-		if t.avpDraw {
-			t.avpRebuild = true
+		if name != "ivp_prev" {
+			prev, err := t.below()
+			if err != nil {
+				return err
+			}
+			t.avpPoint = base.NewPoint(src.height-1, t.avpPoint.Round())
+			if t.avpNB = majorityNewBlock(prev.vps[1]); t.avpNB == nil {
+				t.avpNB = prev.bm.Manifest().Hash()
+			}
 		}
+	case "ivp_next":
+		t.ivpPoint = base.NewPoint(src.height+1, t.ivpPoint.Round())
+	case "avp_next":
+		t.avpPoint = base.NewPoint(src.height+1, t.avpPoint.Round())
+		t.avpNB = valuehash.NewSHA256([]byte("the block above"))
+	case "ivp_round":
+		t.ivpPoint = base.NewPoint(t.ivpPoint.Height(), t.ivpPoint.Round()+1)
 	case "vps_other_round":
 		t.avpPoint = base.NewPoint(t.avpPoint.Height(), t.avpPoint.Round()+1)
-		t.avpRebuild = true
 	// ---- R5: ACCEPT majority for the manifest hash
 	case "avp_other_newblock":
 		t.avpNB = valuehash.NewSHA256([]byte("another block"))
-		t.avpRebuild = true
 	case "avp_draw":
 		t.avpDraw = true
-		t.avpRebuild = true
 	// ---- R6: checksums of the map = checksums of the items
 	case "checksum":
 		t.post = append(t.post, func(root string, bm base.BlockMap) (base.BlockMap, error) {
-			// the proposal file is replaced by the proposal of another re-write (other signature
-			// time => other bytes); the map still lists the first one's checksum
+			// the proposal file is replaced by the proposal of another re-write (signed again: other
+			// signature time => other bytes); the map still lists the first one's checksum
 			alt := filepath.Join(root, "..", "alt")
 			it2 := t.it.clone()
-			f := it2.pr.ProposalFact()
-			fact := isaac.NewProposalFact(f.Point(), f.Proposer(), f.PreviousBlock(), f.Operations())
+			// the same fact signed again: the same proposal, other bytes
+			fact, ok := it2.pr.ProposalFact().(isaac.ProposalFact)
+			if !ok {
+				return nil, errors.Errorf("proposal fact is %T", it2.pr.ProposalFact())
+			}
 			pr := isaac.NewProposalSignFact(fact)
 			if err := pr.Sign(src.prep.In.Proposer.Own, src.env.NetworkID); err != nil {
 				return nil, err
@@ -614,6 +706,112 @@ func acceptAt(src *source, point base.Point, newblock util.Hash, draw bool) (bas
 	return vp, nil
 }
 
+// initAt builds a really signed INIT voteproof of the block's voters at another point.
+func initAt(src *source, point base.Point) (base.INITVoteproof, error) {
+	env := src.env
+	prevblock := src.items.bm.Manifest().Previous()
+	if point.Height() > src.height {
+		prevblock = src.items.bm.Manifest().Hash()
+	}
+	fact := isaac.NewINITBallotFact(point, prevblock, src.prep.Proposal.Fact().Hash(), nil)
+	voters := src.prep.In.Voters
+	sfs := make([]base.BallotSignFact, len(voters))
+	for i, v := range voters {
+		sf := isaac.NewINITBallotSignFact(fact)
+		if err := sf.NodeSign(v.A.Key(v.K), env.NetworkID, v.A.Addr); err != nil {
+			return nil, err
+		}
+		sfs[i] = sf
+	}
+	vp := isaac.NewINITVoteproof(point)
+	vp.SetMajority(fact).SetSignFacts(sfs).SetThreshold(env.Params.Threshold()).Finish()
+	return vp, nil
+}
+
+// observe reads ImportValidity.tla's Facts() back from the files of a block.
+func observe(readers *isaac.BlockItemReaders, height base.Height, networkID base.NetworkID) *Obs {
+	o := &Obs{Stale: []string{}}
+	bm, found, err := isaac.BlockItemReadersDecode[base.BlockMap](readers.Item, height, base.BlockItemMap, nil)
+	if err != nil || !found {
+		o.Err = fmt.Sprintf("blockmap: found=%v err=%v", found, err)
+		return o
+	}
+	man := bm.Manifest()
+	o.Signed = bm.IsValid(networkID) == nil
+	var hasOpsTree, hasStsTree bool
+	note := func(t base.BlockItemType, err error) {
+		if err != nil && o.Err == "" {
+			o.Err = t.String() + ": " + short(err)
+		}
+	}
+	bm.Items(func(item base.BlockMapItem) bool {
+		t := item.Type()
+		// the bytes against the map's checksum
+		cw := util.NewHashChecksumWriter(sha256.New())
+		_, found, err := readers.Item(height, t, func(ir isaac.BlockItemReader) error {
+			r, err := ir.Reader().Decompress()
+			if err != nil {
+				return err
+			}
+			_, err = io.Copy(cw, r)
+			return err
+		})
+		switch {
+		case err != nil || !found:
+			note(t, errors.Errorf("read: found=%v err=%v", found, err))
+		case cw.Checksum() != item.Checksum():
+			o.Stale = append(o.Stale, t.String())
+		}
+		_ = cw.Close()
+		switch t {
+		case base.BlockItemProposal:
+			pr, _, err := isaac.BlockItemReadersDecode[base.ProposalSignFact](readers.Item, height, t, nil)
+			if err != nil || pr == nil {
+				note(t, errors.Errorf("decode: %v", err))
+				break
+			}
+			o.PropM = sameHash(pr.Fact().Hash(), man.Proposal())
+			o.PropH = int64(pr.ProposalFact().Point().Height() - man.Height())
+		case base.BlockItemOperationsTree:
+			tr, _, err := isaac.BlockItemReadersDecode[fixedtree.Tree](readers.Item, height, t, nil)
+			if err != nil {
+				note(t, err)
+				break
+			}
+			hasOpsTree = true
+			o.OpsRoot = sameHash(tr.Root(), man.OperationsTree())
+		case base.BlockItemStatesTree:
+			tr, _, err := isaac.BlockItemReadersDecode[fixedtree.Tree](readers.Item, height, t, nil)
+			if err != nil {
+				note(t, err)
+				break
+			}
+			hasStsTree = true
+			o.StsRoot = sameHash(tr.Root(), man.StatesTree())
+		case base.BlockItemVoteproofs:
+			vps, _, err := isaac.BlockItemReadersDecode[[2]base.Voteproof](readers.Item, height, t, nil)
+			if err != nil || vps[0] == nil || vps[1] == nil {
+				note(t, errors.Errorf("decode: %v", err))
+				break
+			}
+			o.IVP = [2]int64{int64(vps[0].Point().Height() - man.Height()), int64(vps[0].Point().Round())}
+			o.AVP = [2]int64{int64(vps[1].Point().Height() - man.Height()), int64(vps[1].Point().Round())}
+			nb := majorityNewBlock(vps[1])
+			o.Maj = vps[1].Majority() != nil && nb != nil
+			o.NBM = sameHash(nb, man.Hash())
+		}
+		return true
+	})
+	if !hasOpsTree {
+		o.OpsRoot = man.OperationsTree() == nil
+	}
+	if !hasStsTree {
+		o.StsRoot = man.StatesTree() == nil
+	}
+	sort.Strings(o.Stale)
+	return o
+}
+
 func runCase(ws *c10.Worlds, srcs *sources, dir string, c CaseIn, o *CaseOut) {
 	src, err := srcs.get(ws, c.Chain)
 	if err != nil {
@@ -621,7 +819,8 @@ func runCase(ws *c10.Worlds, srcs *sources, dir string, c CaseIn, o *CaseOut) {
 		return
 	}
 	t := &tamperCtx{src: src, it: src.items.clone(), manifest: src.items.bm.Manifest()}
-	t.avpPoint = base.NewPoint(src.height, 0)
+	t.ivpPoint = src.items.vps[0].Point().Point
+	t.avpPoint = src.items.vps[1].Point().Point
 	t.avpNB = t.manifest.Hash()
 	for _, name := range c.Tampers {
 		if err := apply(t, name); err != nil {
@@ -633,13 +832,13 @@ func runCase(ws *c10.Worlds, srcs *sources, dir string, c CaseIn, o *CaseOut) {
 			return
 		}
 	}
-	if t.avpRebuild {
-		avp, err := acceptAt(src, t.avpPoint, t.avpNB, t.avpDraw)
+	if len(c.Tampers) > 0 {
+		vps, err := t.voteproofs()
 		if err != nil {
-			o.Err = "accept voteproof: " + err.Error()
+			o.Err = "voteproofs: " + err.Error()
 			return
 		}
-		t.it.vps[1] = avp
+		t.it.vps = vps
 	}
 	var fromRoot string
 	if c.Raw && len(c.Tampers) == 0 {
@@ -682,6 +881,7 @@ func runCase(ws *c10.Worlds, srcs *sources, dir string, c CaseIn, o *CaseOut) {
 	if err := isaacblock.IsValidBlockFromLocalFS(from.Item, src.height, src.env.NetworkID, nil, nil, nil); err != nil {
 		o.SourceVal = short(err)
 	}
+	o.SourceObs = observe(from, src.height, src.env.NetworkID)
 
 	// the importing node: synced up to the block below
 	dest, err := src.w.Fork(filepath.Join(dir, "to"))
@@ -751,6 +951,7 @@ func runCase(ws *c10.Worlds, srcs *sources, dir string, c CaseIn, o *CaseOut) {
 	if err := isaacblock.IsValidBlockFromLocalFS(dest.Readers.Item, src.height, dest.NetworkID, nil, nil, nil); err != nil {
 		o.Validator = short(err)
 	}
+	o.StoredObs = observe(dest.Readers, src.height, dest.NetworkID)
 	dest.Prev = t.manifest
 	if p, err := src.w.ProjectEnv(dest); err == nil {
 		for _, m := range p.Members {
